@@ -15,7 +15,8 @@ RULE = ('Hypothesis draws a non-negative finite distance array (1-3 axes, 1..30 
         'base, cover_quantile in {False, q, (q, target)} with q, target in [0.05, 0.95], keep_sign. Oracles: '
         'element-wise formula evaluated with the math module, monotonicity over all element pairs (sorted), '
         'zero -> maximum, range [0,1], round trip through return_params. Non-trivial: the array has >= 2 distinct '
-        'values and >= 1 zero, or a parameter is derived from the data; distinct by case hash.')
+        'values and >= 1 zero, or a parameter is derived from the data; distinct by case hash.'
+        ' Integer-valued data is handed over as int64, uint8, uint16, int16 or uint64 arrays in half of the cases (when the type can hold the values).')
 ASSUMPTIONS = ['values are 0 or in [1e-3, 1e6] (squares neither overflow nor underflow)',
                'explicit scale parameters are positive (r, a in [0.01, 100]), base in (1, 10], q/target in [0.05, 0.95]',
                "method 'reverse' is read as (r - D) / r, the only reading compatible with the property's [0,1] clause",
